@@ -74,13 +74,18 @@ def run_pool_case(case):
     try:
         with _Alarm(90):
             vals = [None if i == case.get('src_none') else ('v', i) for i in range(n)]
+            if case.get('src_lambda'):
+                # input examples that hold a lambda (a lazily evaluated field): fine for the thread backend and for
+                # the dill-based process backends, which exist for exactly such objects
+                vals = [v if v is None else v + ((lambda: 0),) for v in vals]
             if api == 'lpm':
                 it = pu.lazy_parallel_map(fn, iter(vals), buffer_size=b, max_workers=w, backend=be)
             else:
+                kw = {'immutable_warranty': 'copy'} if case.get('src_lambda') else {}  # (pickle mode cannot hold them)
                 if case.get('with_key') or case.get('src') == 'dict':
-                    ds = lazy_dataset.new({f'k{i:02d}': v for i, v in enumerate(vals)})
+                    ds = lazy_dataset.new({f'k{i:02d}': v for i, v in enumerate(vals)}, **kw)
                 else:
-                    ds = lazy_dataset.new(vals)
+                    ds = lazy_dataset.new(vals, **kw)
                 if api == 'pm':
                     if case.get('readahead'):
                         # the input side of the parallel map is observable too (it runs in this process)
@@ -228,6 +233,8 @@ def st_pool_case(draw, profile, backends=BACKENDS):
         case['vk'] = draw(st.sampled_from(progs.VALUE_KINDS[1:]))
     if n and draw(st.integers(0, 3)) == 0:
         case['src_none'] = draw(st.integers(0, n - 1))
+    if be in ('t', 'mp', 'dill_mp') and api in ('lpm', 'pm') and draw(st.integers(0, 3)) == 0:
+        case['src_lambda'] = True
     if api in ('pm', 'pf') and draw(st.booleans()):
         if api == 'pf':
             case['src'] = 'dict'
